@@ -70,7 +70,7 @@ var specs = map[string]func(*spec){
 	"C15": func(s *spec) {},
 	"C16": func(s *spec) {},
 	"C17": func(s *spec) { s.ShardsQuick = 16 },
-	"C18": func(s *spec) { s.Race = true; s.ShardsQuick = 4; s.ShardsThorough = 8 },
+	"C18": func(s *spec) { s.Race = true; s.ShardsQuick = 8; s.ShardsThorough = 8 },
 	"C19": func(s *spec) {},
 	"C20": func(s *spec) { s.Race = true; s.ShardsQuick = 4; s.ShardsThorough = 8 },
 }
@@ -995,6 +995,16 @@ func doReplay(id string, sp spec, bin, work, path string) int {
 	_ = os.MkdirAll(dir, 0o755)
 	targs := []string{"-test.timeout=0", "-test.count=1", "-test.v"}
 	test := v.Test
+	if strings.HasPrefix(test, "Fuzz") {
+		// a native fuzz crasher: place it in the seed corpus directory and run the target over it
+		if cm, ok := v.Case.(map[string]any); ok {
+			if cr, _ := cm["fuzz_crasher"].(string); cr != "" {
+				cdir := filepath.Join(dir, "testdata", "fuzz", test)
+				_ = os.MkdirAll(cdir, 0o755)
+				_ = copyFile(cr, filepath.Join(cdir, filepath.Base(cr)))
+			}
+		}
+	}
 	if test != "" && test != "process-death" && test != "shard-failure" {
 		top := test
 		if i := strings.Index(top, "/"); i >= 0 {
